@@ -195,6 +195,11 @@ def collection_spec(draw, ctype=None, paths="plain"):
                 "notes": draw(_notes(nus)),
             }
         )
+    if len(recs) >= 2 and draw(st.integers(0, 3)) == 0:
+        # the same file registered twice (once as recorded, once as a time-expanded copy of the metadata; two projects merged): two
+        # recordings with their own identifiers and metadata, one path - recordings are told apart by identifier
+        i, j = draw(st.permutations(list(range(len(recs)))))[:2]
+        recs[j]["path"] = recs[i]["path"]
     spec = {"ctype": ctype, "users": users, "tags": tags, "recordings": recs, "paths": paths}
     top = {"uuid": draw(_uuid()), "created_on": draw(_dt())}
     if ctype in ("dataset", "annotation_project", "evaluation_set", "model_run"):
@@ -301,6 +306,13 @@ def collection_spec(draw, ctype=None, paths="plain"):
             )
         spec.update({"se_predictions": se_preds, "seq_predictions": seq_preds, "clip_predictions": clip_preds})
 
+    if ctype != "evaluation" and ncont >= 2 and draw(st.integers(0, 2)) == 0:
+        # overlapping clips: a later clip annotation / prediction also lists (some of) the sound-event annotations / predictions of the
+        # first one - the same objects - in the opposite order, after its own.  Every list is kept in its own order.
+        for key in ("clip_annotations", "clip_predictions"):
+            if key in spec and len(spec[key][0]["sound_events"]) >= 2:
+                k2 = draw(st.integers(1, ncont - 1))
+                spec[key][k2]["sound_events"] = list(spec[key][k2]["sound_events"]) + list(reversed(spec[key][0]["sound_events"]))
     if ctype in ANNOT_TYPES:
         top["clip_annotations"] = list(range(ncont))
     if ctype in PRED_TYPES:
